@@ -117,7 +117,7 @@ _DEPTH_RE = re.compile(r'The depth of the complete state graph search is (\d+)')
 
 
 def tlc(name, module_text, cfg_text, workers=8, timeout=1200, heap='8g', cache=True, props=(), env=None,
-        simulate=None, coverage=False):
+        simulate=None, coverage=False, depth=None):
     """Run TLC on a generated instance module.  Returns a dict with the output
     path and the parsed summary.  Results of model-checking runs (which depend
     only on the specification, never on /repo) are cached under work/cache by a
@@ -129,7 +129,7 @@ def tlc(name, module_text, cfg_text, workers=8, timeout=1200, heap='8g', cache=T
         h = _spec_digest()
         h.update(module_text.encode())
         h.update(cfg_text.encode())
-        h.update(repr((props, simulate, coverage)).encode())
+        h.update(repr((props, simulate, coverage, depth)).encode())
         key = h.hexdigest()[:24]
         cdir = os.path.join(WORK, 'cache', key)
         meta = os.path.join(cdir, 'meta.json')
@@ -154,6 +154,8 @@ def tlc(name, module_text, cfg_text, workers=8, timeout=1200, heap='8g', cache=T
         cmd += ['-coverage', '1']
     if simulate:
         cmd += ['-simulate', simulate]
+    if depth:
+        cmd += ['-depth', str(depth)]
     cmd += [tla]
     t0 = time.time()
     e = dict(os.environ)
